@@ -22,10 +22,12 @@ verus! {
 pub struct IndexColumn { pub column_name: Str, pub prefix_length: Option<u64> }
 pub struct IndexMetadata { pub columns: Vec<IndexColumn> }
 #[verifier::external_body] pub struct Database { d: u8 }
+pub uninterp spec fn table_spec(db: &Database, n: &str) -> &'static Table;
 impl Database {
     pub uninterp spec fn meta(&self, index_name: &str) -> Option<IndexMetadata>;
     // database.get_table(n).ok_or_else(|| ExecutorError::TableNotFound(..))? etc.
-    #[verifier::external_body] pub fn get_table_or(&self, n: &str) -> (r: Result<&Table, ExecutorError>) { unimplemented!() }
+    #[verifier::external_body] pub fn get_table_or(&self, n: &str) -> (r: Result<&Table, ExecutorError>)
+        ensures r matches Ok(t) ==> t == table_spec(self, n) { unimplemented!() }
     #[verifier::external_body] pub fn get_index_or(&self, n: &str) -> (r: Result<&IndexMetadata, ExecutorError>)
         ensures r matches Ok(m) ==> self.meta(n) == Some(*m) { unimplemented!() }
     #[verifier::external_body] pub fn get_index_data_or(&self, n: &str) -> (r: Result<&IndexData, ExecutorError>) { unimplemented!() }
@@ -45,6 +47,12 @@ pub uninterp spec fn extracted(e: Expression, col: &str) -> Option<IndexPredicat
 #[verifier::external_body]
 fn extract_for(where_clause: Option<&Expression>, col: &str) -> (r: Option<IndexPredicate>)
     ensures where_clause is None ==> r is None, where_clause matches Some(e) ==> r == extracted(*e, col) { unimplemented!() }
+/// predicate_literals_have_key_variant for the column named col of this table: every literal of the predicate has the SqlValue variant the index keys have
+pub uninterp spec fn key_variant_ok(p: IndexPredicate, table: &Table, col: &str) -> bool;
+// index_predicate.filter(|p| table.schema.columns.iter().find(|c| c.name == col).is_some_and(|c| predicate_literals_have_key_variant(p, &c.data_type)))
+#[verifier::external_body]
+fn keep_if_key_variant(p: Option<IndexPredicate>, table: &Table, col: &str) -> (r: Option<IndexPredicate>)
+    ensures r == (match p { Some(x) => if key_variant_ok(x, table, col) { Some(x) } else { None }, None => None }) { unimplemented!() }
 /// where_clause_fully_satisfied_by_index answered true (its contract, unit I-range: the skip shape)
 pub uninterp spec fn skip_ok(e: Expression, col: &str, p: Option<IndexPredicate>) -> bool;
 #[verifier::external_body]
@@ -75,6 +83,7 @@ ITEMS = {
             ('re', r'index_metadata\.columns\.first\(\)\.is_some_and\(\|col\| col\.prefix_length\.is_some\(\)\)', 'first_has_prefix(&index_metadata.columns)', None),
             ('re', r'index_metadata\.columns\.iter\(\)\.any\(\|col\| col\.prefix_length\.is_some\(\)\)', 'some_has_prefix(&index_metadata.columns)', None),
             ('re', r'where_clause\.and_then\(\|expr\| extract_index_predicate\(expr, indexed_column\)\)', 'extract_for(where_clause, indexed_column)', None),
+            ('re', r'(?s)let index_predicate = index_predicate\.filter\(\|predicate\| \{.*?\n    \}\);', 'let index_predicate = keep_if_key_variant(index_predicate, table, indexed_column);', None),
         ],
         contract='''
     ensures
@@ -84,7 +93,9 @@ ITEMS = {
             &&& m is Some
             // what is pushed to the index: nothing for a prefix index, otherwise what extract_index_predicate gives for the first indexed column
             &&& (first_is_prefix(m->Some_0.columns@) ==> pred is None)
-            &&& (!first_is_prefix(m->Some_0.columns@) ==> (where_clause is None ==> pred is None) && (where_clause matches Some(e) ==> pred == extracted(*e, col)))
+            // .. and only when its literals have the variant of the keys (a string literal against a DATE column is not pushed: the WHERE clause decides)
+            &&& (!first_is_prefix(m->Some_0.columns@) ==> (where_clause is None ==> pred is None)
+                    && (where_clause matches Some(e) ==> pred == (match extracted(*e, col) { Some(x) => if key_variant_ok(x, table_spec(database, table_name), col) { Some(x) } else { None }, None => None })))
             // the WHERE clause is re-applied unless where_clause_fully_satisfied_by_index vouched for exactly this predicate
             &&& (where_clause matches Some(e) ==> (need_filter <==> !(pred is Some && skip_ok(*e, col, pred))))
             &&& (where_clause is None ==> !need_filter)
@@ -101,6 +112,6 @@ OBLIGATIONS = {
 CANARIES = ['canary_decide']
 TRUSTED = [
     'R6 (fragment kind prefix): the statements of execute_index_scan before "// Determine if this is a multi-column index" are lifted into a function returning (index_predicate, need_where_filter, sorted_columns); NOT under contract: the rest of the function (which index operation is called with the predicate - range_scan: unit I-scan, multi_lookup: unit I-multi -, row fetching, the WHERE re-application itself (decision tables: unit E-truthy), DESC reversal, the FromResult flags)',
-    'external_body Database::get_table_or / get_index_or / get_index_data_or (Option::ok_or_else(..)?), first_column_name / first_has_prefix / some_has_prefix (slice::first / iter().any with closures over prefix_length), extract_for (Option::and_then(extract_index_predicate): uninterpreted deterministic `extracted`; the function itself: unit I-range), where_clause_fully_satisfied_by_index (uninterpreted skip_ok; its contract - the skip shape - and the exactness lemmas: unit I-range)',
+    'external_body Database::get_table_or / get_index_or / get_index_data_or (Option::ok_or_else(..)?), first_column_name / first_has_prefix / some_has_prefix (slice::first / iter().any with closures over prefix_length), extract_for (Option::and_then(extract_index_predicate): uninterpreted deterministic `extracted`; the function itself: unit I-range), keep_if_key_variant (Option::filter with predicate_literals_have_key_variant on the declared type of the column: uninterpreted key_variant_ok - that function is a match over DataType with closures, NOT under contract; fix d55aa609), where_clause_fully_satisfied_by_index (uninterpreted skip_ok; its contract - the skip shape - and the exactness lemmas: unit I-range)',
     'Expression, ExecutorError, IndexPredicate, Str, SortCol ((String, OrderDirection)), Table, IndexData, Database opaque; IndexMetadata / IndexColumn reduced to the fields read',
 ]
